@@ -234,6 +234,9 @@ class Interp(Ops):
         mod = self.frame.module
         if mod is not None and name in mod.names:
             return self.global_value(mod, name)
+        ov = self.opts.get("builtin_override")
+        if ov and name in ov and not self.in_spec:
+            return ov[name]
         if name in B.BUILTINS:
             return B.BUILTINS[name]
         if name in self.ghost:
